@@ -122,6 +122,29 @@ func c14RealTimeRun(c *core.Collector, x *Ctx, short bool) {
 			got8003, got8001 := 0, 0
 			var last8003 []byte
 			for q := 0; q < 2; q++ {
+				if q == 1 && got8001 == 1 {
+					// the heartbeat was answered; is the re-request merely late, or missing? Wait 3 s for it; if it does not come, a probe
+					// heartbeat that IS answered promptly shows a server that is alive and responsive and still owes the re-request
+					if _, okp, top := t.Peek(3 * time.Second); top || !okp {
+						t0 := time.Now()
+						t.Write(t.Frame(0x0002, 7, nil))
+						rxp, okp2, top2 := t.Next(3 * time.Second)
+						if top2 || !okp2 || rxp.F == nil {
+							c.Inconclusive()
+							return
+						}
+						frames++
+						if rxp.F.ID == 0x8001 && time.Since(t0) < 300*time.Millisecond {
+							if _, okq, toq := t.Peek(1 * time.Second); toq || !okq {
+								bad("after >= 5.3 s idle the next inbound data did not yield exactly one re-request", "the heartbeat was answered, no 0x8003 followed within 3 s, and a probe heartbeat was answered at once")
+								return
+							}
+						} else {
+							c.Inconclusive()
+							return
+						}
+					}
+				}
 				rx, ok := next()
 				if !ok {
 					return
